@@ -37,6 +37,7 @@ def parse_ops():
 OPS = parse_ops()
 
 
+GUARD_N = 32
 JUNK_TAIL = bytes((0xA5, 0x5A, 0xC3, 0x3C)) * 16
 
 
@@ -61,6 +62,17 @@ class Scratch:
 
     def fill(self, byte, n):
         ctypes.memset(self.addr, byte, n)
+
+    def arm(self, n):
+        """Prepares an n-byte output object: it and the GUARD_N bytes behind it are filled with 0xCD; guard_ok(n) checks the tail."""
+        ctypes.memset(self.addr, 0xCD, n + GUARD_N)
+
+    def check_guard(self, what, n):
+        tail = ctypes.string_at(self.addr + n, GUARD_N)
+        if tail != b"\xCD" * GUARD_N:
+            from .runner import Violation
+            first = next(i for i in range(GUARD_N) if tail[i] != 0xCD)
+            raise Violation("%s/output-overrun" % what, "the call wrote %d byte(s) past its %d-byte result object (first at +%d: %#x)" % (sum(1 for x in tail if x != 0xCD), n, first, tail[first]))
 
     def read(self, n, off=0):
         return ctypes.string_at(self.addr + off, n)
@@ -164,8 +176,9 @@ class Lib:
         if b is not None:
             B.write_operand(b)
         if alias is None:
-            O.fill(0xCD, osz)
+            O.arm(osz)
             rv = f(O.ptr, A.ptr, B.ptr, arg)
+            O.check_guard(name, osz)
             return rv, O.read(osz)
         if alias == "a":
             rv = f(A.ptr, A.ptr, B.ptr, arg)
@@ -187,6 +200,7 @@ class Lib:
         blocks = [self.A, self.B, self.C, self.D]
         bi = 0
         cargs = []
+        guarded = False
         for x in args:
             if isinstance(x, (bytes, bytearray)):
                 blk = blocks[bi]
@@ -194,13 +208,16 @@ class Lib:
                 blk.write_operand(bytes(x))
                 cargs.append(blk.ptr)
             elif x == "O":
-                self.O.fill(0xCD, out_size)
+                self.O.arm(out_size)
                 cargs.append(self.O.ptr)
+                guarded = True
             elif isinstance(x, int):
                 cargs.append(ctypes.c_long(x))
             else:
                 cargs.append(x)
         rv = f(*cargs)
+        if guarded:
+            self.O.check_guard(fname, out_size)
         return rv, self.O.read(out_size)
 
 
